@@ -118,6 +118,8 @@ def one_run(sc, placements, sub_id):
     fired_ctx = []
     for p in placements:
         op, idx, en = p
+        if op == "client":
+            continue  # client-side behaviours are added to the victim's script below
         if op == "accept":
             lst.faults[("accept", idx)] = E[en]
         elif en == "RST":
@@ -141,6 +143,14 @@ def one_run(sc, placements, sub_id):
             steps.append(("send", stream[cut:]))
         else:
             steps.append(("send", stream))
+        if cid == victim and any(p[0] == "client" for p in placements):
+            for p in placements:
+                if p[0] == "client" and p[2] == "OOB+FIN":
+                    # an urgent byte followed by a half-close: the descriptor is readable (EOF) and in the
+                    # exceptional set in the same poll pass
+                    steps += [("sleep", 0.0001 * (1 + p[1])), ("oob",), ("fin",)]
+                elif p[0] == "client" and p[2] == "OOB+RST":
+                    steps += [("sleep", 0.0001 * (1 + p[1])), ("oob",), ("rst",)]
         sim.add_client(steps, cid=cid, start=c["start"])
     state = {"probe": None}
 
@@ -177,7 +187,7 @@ def one_run(sc, placements, sub_id):
         viols.append((clause, disc, "placement %r: %s" % (placements, msg)))
 
     tag = "+".join(("setup:%s" % p[0]) if p[0] in SETUP_OPS else "%s:%s" % (p[0], p[2]) for p in placements) or "none"
-    fired = sum(1 for e in k.history if e[2] == "fault")
+    fired = sum(1 for e in k.history if e[2] in ("fault", "c_oob"))
     # 1. loop alive, listener alive, probe served
     io = [t for t in sim.final_threads if t[0] == "io"][0]
     if not io[2] or io[3] is not None:
@@ -212,7 +222,7 @@ def one_run(sc, placements, sub_id):
         v("stale_descriptor_polled", tag, "the poll set contained a closed descriptor")
     # 4. victim released - or, if the server shrugged a transient error off, fully served
     vs = sim.conns.get(victim)
-    victim_fault = [p for p in placements if p[0] in ("recv", "send", "getsockopt", "setsockopt", "setblocking")]
+    victim_fault = [p for p in placements if p[0] in ("recv", "send", "getsockopt", "setsockopt", "setblocking", "client")]
 
     def fully_served(cid):
         s = sim.conns.get(cid)
@@ -291,6 +301,9 @@ def all_single_placements(calls):
         for i in range(min(calls[op], 1)):
             for en in SETUP_ERRS:
                 out.append((op, i, en))
+    for i in range(3):
+        out.append(("client", i, "OOB+FIN"))
+        out.append(("client", i, "OOB+RST"))
     return out
 
 
